@@ -56,6 +56,9 @@ _FR = [((i, False), (i, True)) for i in range(64)]
 
 
 def frames_of(n, bits):
+    global _FR
+    if n > len(_FR):
+        _FR = [((i, False), (i, True)) for i in range(n + 1)]
     return [_FR[i][(bits >> i) & 1] for i in range(n)]
 
 
@@ -393,6 +396,70 @@ def work_cover(task):
     return {"cov": cov, "viol": viol, "nviol": nviol}
 
 
+def long_streams(n):
+    """Deterministic long streams: every period word of length <= 4 repeated to n frames, runs of
+    growing length, and long bursts separated by long silences."""
+    out = []
+    for k in range(1, 5):
+        for bits in range(1 << k):
+            w = [bool((bits >> i) & 1) for i in range(k)]
+            out.append((w * (n // k + 1))[:n])
+    grow = []
+    k = 1
+    while len(grow) < n:
+        grow += [True] * k + [False] * k
+        k += 1
+    out.append(grow[:n])
+    out.append(([True] * 37 + [False] * 19) * (n // 56 + 1))
+    out.append(([False] * 23 + [True] * 101 + [False] * 3 + [True]) * (n // 128 + 1))
+    return [w[:n] for w in out]
+
+
+def work_long(task):
+    """Large-scale rows (directed, not exhaustive): long streams x large max_length tuples."""
+    oracle, tuples, n = task
+    cov = {"evaluations": 0, "distinct_nontrivial": 0, "traces_validated_against_impl": 0, "large_rows_not_exhaustive": 0,
+           "samples": []}
+    viol = []
+    streams = long_streams(n)
+    global _FR
+    if len(_FR) < n + 1:
+        _FR = [((i, False), (i, True)) for i in range(n + 1)]
+    for params in tuples:
+        for fl in streams:
+            nn = len(fl)
+            bits = 0
+            for i, v in enumerate(fl):
+                if v:
+                    bits |= 1 << i
+            memo = None
+            msg, nontrivial, se = judge(oracle, params, nn, bits, memo, 0)
+            cov["evaluations"] += 1
+            cov["large_rows_not_exhaustive"] += 1
+            cov["traces_validated_against_impl"] += 1
+            if nontrivial:
+                cov["distinct_nontrivial"] += 1
+            if msg and len(viol) < 6:
+                key = "tuple=%s long-stream=%s...(%d frames)" % (",".join(map(str, params)), stream_str(min(nn, 24), bits), nn)
+                viol.append((key, msg, {"kind": "tok", "oracle": oracle, "params": list(params), "stream": stream_str(nn, bits)}))
+    return {"cov": cov, "viol": viol}
+
+
+def long_tuples():
+    out = []
+    for mx in (17, 33, 64, 100):
+        for mn in (1, 16, mx):
+            if mn > mx:
+                continue
+            for ms in (0, 5, 16, mx - 1):
+                if ms >= mx:
+                    continue
+                for im, is_ in ((0, 0), (3, 2)):
+                    for mode in tm.MODES:
+                        out.append((mn, mx, ms, im, is_, mode))
+    return out
+
+
 def work_model_selfcheck(task):
     """RefTok (incremental) against segment() (declarative) - model vs model."""
     tuples, L = task
@@ -526,6 +593,9 @@ def run(prop, tier):
     for tuples, d in cover:
         for c in _interleave(tuples, common.NPROC * 4):
             tasks.append(("cover", (prop, c, d)))
+    lt = [t for t in long_tuples() if prop != "C04" or t[3] <= 1]
+    for c in _interleave(lt, common.NPROC * 2):
+        tasks.append(("long", (prop, c, 300 if tier == "quick" else 1000)))
     for part in common.pmap(_dispatch, tasks):
         rep.merge(part)
     rep.assumptions += [
@@ -540,6 +610,8 @@ def _dispatch(t):
     kind, task = t
     if kind == "enum":
         return work_enum(task)
+    if kind == "long":
+        return work_long(task)
     return work_cover(task)
 
 
